@@ -1,16 +1,17 @@
 package impl
 
 import (
+	"encoding/base64"
 	"encoding/json"
 	"reflect"
 
 	"github.com/trustbloc/sidetree-go/pkg/api/protocol"
 	"github.com/trustbloc/sidetree-go/pkg/docutil"
 	"github.com/trustbloc/sidetree-go/pkg/patch"
-	"github.com/trustbloc/sidetree-go/pkg/versions/1_0/operationparser/patchvalidator"
 	"github.com/trustbloc/sidetree-go/pkg/vdr/sidetreelongform/dochandler"
 	"github.com/trustbloc/sidetree-go/pkg/versions/1_0/doctransformer/didtransformer"
 	"github.com/trustbloc/sidetree-go/pkg/versions/1_0/doctransformer/doctransformer"
+	"github.com/trustbloc/sidetree-go/pkg/versions/1_0/operationparser/patchvalidator"
 
 	"verif/harness/internal/proto"
 )
@@ -37,6 +38,12 @@ func projectOps(v interface{}, published bool) interface{} {
 			o["transactionNumber"] = m["transactionNumber"]
 			cr, _ := m["canonicalReference"].(string)
 			o["canonicalReference"] = cr
+		} else if req, ok := m["operation"].(string); ok {
+			// the harness's note for the order predicate: the number the request names
+			var body struct{ N *int64 }
+			if b, err := base64.StdEncoding.DecodeString(req); err == nil && json.Unmarshal(b, &body) == nil && body.N != nil {
+				o["n"] = *body.N
+			}
 		}
 		out = append(out, o)
 	}
